@@ -504,7 +504,7 @@ def run(prop, tier, seed):
         exe = os.path.join(build_impl(), "sb_patch")
         bad, mism = (run_c09 if prop == "C09" else run_c10)(run_, rng, tier, exe)
         import wide
-        wb, wm = wide.wide_family(run_, exe, rng, 150 if tier == "quick" else 3000, prop=prop)
+        wb, wm = wide.wide_family(run_, exe, rng, 300 if tier == "quick" else 4000, prop=prop)
         bad += wb; mism += wm
     except CheckError as e:
         run_.violation("no-input", "build failed: %s" % e, dict(broken="build", detail=str(e)))
